@@ -16,6 +16,7 @@ import gen_formulas as GF
 import gen_tables as GT
 import implutil as U
 
+STATIC = ["Model/Lifetime.vo", "Proofs/TableFacts.vo", "Proofs/LifetimeProofs.vo"]
 IMPORTS = "From SSP Require Import Model.Lifetime."
 A3 = {"a[0]": "a0", "a[1]": "a1", "a[2]": "a2"}
 
